@@ -534,6 +534,72 @@ def oracle_single(spec):
     return o
 
 
+# --------------------------------------------------------------------------
+# the convenience loader: load_score_as_part(file) == merge of the loaded score
+# --------------------------------------------------------------------------
+def _rows(na):
+    return Counter((round(float(r["onset_quarter"]) * 10080), round(float(r["duration_quarter"]) * 10080), int(r["pitch"])) for r in na)
+
+
+def oracle_load_as_part(spec):
+    """A generated score is written to a MusicXML file; load_score_as_part(file) must give one Part whose sounding
+    notes equal those of the score-level note array of load_score(file) (the same file, so that nothing depends on
+    what the MusicXML round trip keeps) and, for a one-part file, the loaded part itself."""
+    import os
+    import tempfile
+
+    import partitura
+    from partitura.io import load_score_as_part
+
+    o = Outcome()
+    n = len(spec["parts"])
+    o.cls("parts-%d" % n)
+    o.cls("alias-lp", spec["alias"])
+    divs = [ps["divs"][0][1] for ps in spec["parts"]]
+    o.cls("divisions-different", len(set(divs)) > 1)
+    o.nontrivial = n > 1
+    score, _parts = M.build(dict(spec, container="score"))
+    with tempfile.TemporaryDirectory(prefix="c15_") as tmp:
+        fn = os.path.join(tmp, "score.musicxml")
+        try:
+            call(partitura.save_musicxml, score, fn)
+            loaded = call(partitura.load_score, fn)
+            ref = call(loaded.note_array)
+        except SutRaised:
+            # the MusicXML writer / reader themselves belong to C03 / C04
+            o.excluded.append("musicxml-round-trip-raised")
+            return o
+        if len(loaded.parts) != n:
+            o.excluded.append("musicxml-round-trip-changed-the-number-of-parts")
+            return o
+        fnc = partitura.io.lp if spec["alias"] else load_score_as_part
+        part = call(fnc, fn)
+        if not isinstance(part, S.Part):
+            o.add("load-as-part-result-not-a-part", type=type(part).__name__)
+            return o
+        got = call(part.note_array)
+    if _rows(got) != _rows(ref):
+        o.add("load-as-part-notes-differ-from-score-array", missing=sorted((_rows(ref) - _rows(got)).elements())[:4],
+              extra=sorted((_rows(got) - _rows(ref)).elements())[:4], parts=n, n_ref=len(ref), n_got=len(got))
+    if len(ref) == 0:
+        o.excluded.append("file-without-notes")
+    # documented default of merge_parts is used: notes of different parts in different voices
+    if n > 1:
+        by_part = {}
+        for k, ps in enumerate(spec["parts"]):
+            for x in sounding(ps):
+                by_part[x["id"]] = k
+        voices = {}
+        for nt in part.notes:
+            if nt.id in by_part:
+                voices.setdefault(by_part[nt.id], set()).add(nt.voice)
+        ks = sorted(voices)
+        if any(voices[a] & voices[b] for i, a in enumerate(ks) for b in ks[i + 1:]):
+            if not zero_based_clash(spec):
+                o.add("load-as-part-voices-shared-across-parts", voices={str(k): sorted(v) for k, v in voices.items()})
+    return o
+
+
 def _iter_parts_score(spec, disc):
     return disc["kind"] == "sut-raised:AttributeError@score.py:iter_parts" and spec["container"].startswith("score")
 
@@ -561,12 +627,20 @@ SUBCHECKS = [
             "iter-parts-rejects-score": _iter_parts_score,
             "score-notearray-tacet-group": lambda spec, disc: disc["kind"] == "score-notearray-sut-raised:UFuncTypeError@utils/music.py:note_array_from_part_list"
             and tacet_group(spec),
+            "voice-mode-zero-based-voices": lambda spec, disc: spec["reassign"] == "voice" and disc["kind"] == "voice-shared-across-inputs"
+            and zero_based_clash(spec),
+            "auto-mode-more-than-four-voices-per-staff": lambda spec, disc: spec["reassign"] == "auto" and disc["kind"] == "voice-shared-across-inputs"
+            and auto_ranges_overlap(spec),
             "merged-timepoints-quarter-stale": lambda spec, disc: disc["kind"] == "merged-timepoints-quarter-not-lcm"
             and M.lcm([ps["divs"][0][1] for ps in spec["parts"]]) != 1
             and all(q == 1 for (_t, q) in disc["detail"]["points"]),
         },
         floors={"divisions-different": 0.4, "lcm-exceeds-all": 0.2, "auto-judged": 0.04, "divisions-equal": 0.1, "some-staff-missing": 0.15,
-                "repeated-part-id-with-different-divisions": 0.02},
+                "repeated-part-id-with-different-divisions": 0.02,
+                # shapes added by the generator audit
+                "voice-zero": 0.08, "more-than-four-voices-per-staff": 0.04, "staff-three": 0.08, "staff-gap-or-not-from-one": 0.1,
+                "structural-extra-in-later-part": 0.1, "non-structural-extra-in-later-part": 0.08, "later-part-measure-numbers-differ": 0.1,
+                "reassign-arg-default": 0.02, "empty-part": 0.02},
     ),
     SubCheck(
         "single_part",
@@ -576,5 +650,15 @@ SUBCHECKS = [
         rule="one generated part alone, in a list, tuple, PartGroup, nested PartGroup, list holding a group, Score, Score holding a group; "
              "the result must be the same object, unchanged; non-trivial = the part is inside a container",
         known={"iter-parts-rejects-score": _iter_parts_score},
+    ),
+    SubCheck(
+        "load_as_part",
+        oracle_load_as_part,
+        strategy=M.file_spec,
+        budget={"quick": 10, "thorough": 200},
+        rule="1-4 generated parts (own divisions, voices, staves) saved as one MusicXML file; load_score_as_part / lp of the file must be "
+             "one Part whose sounding notes equal the score-level note array of load_score of the same file, in disjoint voices per "
+             "original part; non-trivial = two or more parts",
+        floors={"parts-1": 0.05, "divisions-different": 0.2},
     ),
 ]
